@@ -1,6 +1,7 @@
 package main
 
 import (
+	"encoding/json"
 	"flag"
 	"fmt"
 	"os"
@@ -13,6 +14,7 @@ import (
 type propFunc func(r *Run, verifDir string)
 
 var props = map[string]propFunc{
+	"C05": runC05,
 	"C17": runC17,
 }
 
@@ -26,6 +28,8 @@ func main() {
 	gen := flag.String("gen", "", "generate a reference file: registry")
 	goarch := flag.String("goarch", "", "GOARCH for the load (thorough)")
 	tests := flag.Bool("tests", false, "load test variants too")
+	outdir := flag.String("outdir", "", "directory for violation reports (default <verif>/out)")
+	mutants := flag.String("mutants", "", "mutant-corpus result file to include in the evidence (thorough)")
 	flag.Parse()
 
 	seed := 0
@@ -59,6 +63,15 @@ func main() {
 		}
 		return
 	}
+	if *gen == "versions" {
+		reg := BuildRegistry(p)
+		m := NewModel(p, reg)
+		fmt.Println("# pkg.Struct.Field\tversions (first..last) the KMIP specification defines the element for")
+		for _, a := range versionAnnotations(p, m) {
+			fmt.Printf("%s\t%s\n", a.key, canonRange(a.fp.VRange))
+		}
+		return
+	}
 	f, ok := props[*prop]
 	if !ok {
 		var ids []string
@@ -74,8 +87,21 @@ func main() {
 	r.Extra["checker_cmd"] = strings.Join(os.Args, " ")
 	r.Extra["trusted_base"] = []string{"go/types (type checking, constant evaluation)", "golang.org/x/tools go/packages, go/ssa, callgraph/vta", "reference tables under /verif/ref"}
 	f(r, *verif)
+	if *mutants != "" {
+		if b, err := os.ReadFile(*mutants); err == nil {
+			var mres map[string]any
+			if json.Unmarshal(b, &mres) == nil {
+				r.Extra["mutant_corpus"] = mres
+				r.Infof("mutant corpus: %v of %v one-instance breaks reported by the expected rule (evidence only)", mres["killed"], mres["total"])
+			}
+		}
+	}
 	if *replay != "" {
 		r.Infof("replay of %s: the listed constructs are re-evaluated by the full rule set on the current tree", *replay)
 	}
-	os.Exit(r.Finish(*evidence, filepath.Join(*verif, "known_findings.txt"), filepath.Join(*verif, "out"), seed))
+	od := filepath.Join(*verif, "out")
+	if *outdir != "" {
+		od = *outdir
+	}
+	os.Exit(r.Finish(*evidence, filepath.Join(*verif, "known_findings.txt"), od, seed))
 }
